@@ -95,6 +95,21 @@ Theorem C13_prune_once_hash : forall G g ops s xs,
 Proof. exact prune_once_hash. Qed.
 Print Assumptions C13_prune_once_hash.
 
+(* 6. across commits (the committer is the only caller of PruneToHeight): a block reported as
+      abandoned is never executed by a later commit, with or without the network filter, also when
+      commits fail in between; and a failing commit commits nothing, prunes nothing, loses nothing *)
+Theorem C13_no_execute_after_abort : forall flt g ops s xs,
+  Forall no_prune ops -> run flt (new_sys g) ops = (s, xs) -> abort_then_exec xs.
+Proof. exact no_execute_after_abort. Qed.
+Print Assumptions C13_no_execute_after_abort.
+
+Theorem C13_commit_error_keeps : forall flt s tbl b s',
+  ah_keyed (s_store s) -> commit flt s tbl b = (s', CErr) ->
+  s_committed s' = s_committed s /\ prune_height (s_store s') = prune_height (s_store s) /\
+  stable (s_store s) (s_store s').
+Proof. exact commit_error_keeps. Qed.
+Print Assumptions C13_commit_error_keeps.
+
 (* ---- non-vacuity: a forest with a fork and an equivocation (two blocks in view 2), the
    equivocating block stored after the committed chain; a gap (block 7's parent 6 is nowhere) *)
 Definition ex_g := B 1 0 0.
@@ -135,3 +150,15 @@ Example C13_ex_run :
    RBlocks [ex_o];
    RCommit (CDone [ex_a; ex_b; ex_c] [ex_e])].
 Proof. vm_compute. reflexivity. Qed.
+
+(* a commit that fails because an ancestor is missing and nobody has it, then succeeds once a peer
+   answers; o (view 1, stored after a) is abandoned by the second commit and never executed *)
+Definition ex_ops2 :=
+  [OStore ex_a; OStore ex_o; OStore ex_c;
+   OCommit ex_c [];                 (* b missing: error, nothing happens *)
+   OCommit ex_c [(3, [ex_b])]].     (* b fetched: a, b, c executed; o abandoned *)
+Example C13_ex_run2 :
+  snd (run true (new_sys ex_g) ex_ops2) =
+  [RUnit; RUnit; RUnit; RCommit CErr; RCommit (CDone [ex_a; ex_b; ex_c] [ex_o])] /\
+  Forall no_prune ex_ops2.
+Proof. split; [vm_compute; reflexivity|repeat constructor]. Qed.
